@@ -1,5 +1,5 @@
 (* C27 -- property theorems only.  [fixed] is the control flow of nifty.cl.minimization.optimize_kl
-   with fixes/C27-1..3.patch applied, [orig] the pinned control flow (see Model.v). *)
+   with fixes/C27-1..4.patch applied, [orig] the pinned control flow (see Model.v). *)
 From Coq Require Import List Bool Arith Lia.
 Import ListNotations.
 Require Import NV.C27.Model NV.C27.Proofs.
@@ -57,7 +57,16 @@ Theorem C27_files_follow_strategy : forall (o : opts) (e : env) (r : result) (g 
   run fixed o e = Ok r -> has (r_files r) g = true -> has (files0 e) g = true \/ name_ok o g.
 Proof. exact files_follow_strategy. Qed.
 
-(* ---- the pinned control flow is refuted on three counts (each witness is replayed on the
+(* The mean file tells the kind of the saved list: after every executed iteration with an output
+   directory, "<name>.mean.pickle" exists iff the saved list is a ResidualSampleList (so a later
+   resume loads what was saved, also under save_strategy="latest" when zero-sample and sampled
+   iterations alternate). *)
+Theorem C27_mean_file_iff_residual : forall (o : opts) (e : env) (i : nat) (s s' : lstate) (b : bool),
+  iteration fixed o e i s = Ok (s', b) -> dry o = false -> outdir o = true ->
+  has (files s') (FMean (fn o i)) = sl_res s'.
+Proof. exact mean_file_iff_residual. Qed.
+
+(* ---- the pinned control flow is refuted on four counts (each witness is replayed on the
         implementation by the check: corpus/C27) ---- *)
 
 (* F8: dry_run leaves total_iterations entries on the RNG stack, a terminate callback one *)
@@ -101,11 +110,18 @@ Proof.
   split; [reflexivity|]. split; [vm_compute; reflexivity|]. cbn. discriminate.
 Qed.
 
+(* a zero-sample iteration after a sampled one under "latest" leaves the stale mean file next to
+   the single plain sample (the real loader then takes it for a ResidualSampleList and raises) *)
+Theorem C27_orig_stale_mean_refuted :
+  exists (o : opts) (e : env) (r : result),
+    valid o e /\ run orig o e = Ok r /\ r_res r = false /\ has (r_files r) (FMean Latest) = true.
+Proof. exact orig_stale_mean. Qed.
+
 (* each fix is needed on its own: with only the other two applied the witness still fails *)
 Theorem C27_each_fix_needed :
-  (exists o e r, valid o e /\ run (mkVar false true true) o e = Ok r /\ r_depth r <> depth0 e /\ r_state_loaded r = false) /\
-  (exists o e, valid o e /\ run (mkVar true false true) o e = Err EUnbound) /\
-  (exists o e r, valid o e /\ outdir o = false /\ run (mkVar true true false) o e = Ok r /\ r_foreign r <> []).
+  (exists o e r, valid o e /\ run (mkVar false true true true) o e = Ok r /\ r_depth r <> depth0 e /\ r_state_loaded r = false) /\
+  (exists o e, valid o e /\ run (mkVar true false true true) o e = Err EUnbound) /\
+  (exists o e r, valid o e /\ outdir o = false /\ run (mkVar true true false true) o e = Ok r /\ r_foreign r <> []).
 Proof. exact each_fix_needed. Qed.
 
 (* ---- non-vacuity: a valid configuration with output directory, resume from a directory left by
